@@ -121,9 +121,14 @@ closure (A ∩ interior rect).  Checked exactly (faces, 1-cells, nodes) when no 
 def clipCellExpected (c : Cell) : Bool := (c.inA && c.lB && c.rB) || (c.lA && c.lB) || (c.rA && c.rB)
 def clipAccepts (T : Tol) (A B R : Flat) : Bool :=
   let cs := cells A B R
-  let facesOK := cs.all fun c => ((c.lR == (c.lA && c.lB)) || (!T.exact && faceExcused T .inter A B R c true)) &&
-                                 ((c.rR == (c.rA && c.rB)) || (!T.exact && faceExcused T .inter A B R c false))
-  if !T.exact then facesOK else
+  -- RectangleIntersection interpolates new vertices in plain floating point: faces always get the tolerance band
+  let T' : Tol := { T with exact := false }
+  let facesOK := cs.all fun c => ((c.lR == (c.lA && c.lB)) || faceExcused T' .inter A B R c true) &&
+                                 ((c.rR == (c.rA && c.rB)) || faceExcused T' .inter A B R c false)
+  -- 1-cells and nodes are compared (exactly) only when every vertex of the result is an input vertex or a rectangle corner
+  let inVerts := flatVertices A ++ flatVertices B
+  let noNew := (flatVertices R).all fun v => inVerts.contains v
+  if !noNew then facesOK else
   facesOK && cs.all (fun c => c.inR == clipCellExpected c) &&
   (nodePts A B R cs).all fun v =>
     let inc := cs.filter fun c => c.a == v || c.b == v
@@ -144,10 +149,11 @@ structure Outcome where
   msg : Option String          -- none = ok
   area2 : Option Int           -- twice the area of the result (valid polygonal results)
   exactPass : Bool
+  needNew : Bool := false
 
 def b01 (b : Bool) : String := if b then "1" else "0"
 
-def check (line : String) : String :=
+def check (stats : Bool) (line : String) : String :=
   match splitBar (Driver.tokens line) with
   | ["O"] :: ta :: tb :: recToks =>
     match Driver.GTreeIO.parseGeom ta, Driver.GTreeIO.parseGeom tb, recToks.mapM parseRec with
@@ -163,6 +169,7 @@ def check (line : String) : String :=
         let A : Operand := ⟨ga.g, flat ga.g⟩
         let B : Operand := ⟨gb.g, flat gb.g⟩
         let mag := maxAbs A.f B.f
+        let grid := gridExact ((flatVertices A.f ++ flatVertices B.f).flatMap fun p => [p.x, p.y])
         let gcFlag := isGC ga.g || isGC gb.g
         let mixed := decide ((atomDims ga.g).length > 1) || decide ((atomDims gb.g).length > 1)
         let near := nearIncidence A.f B.f
@@ -182,8 +189,9 @@ def check (line : String) : String :=
               else if var.startsWith "ae" then (A, emptyOp (String.ofList (var.toList.drop 2))) else if var.startsWith "ea" then (emptyOp (String.ofList (var.toList.drop 2)), A)
               else if var == "gab" then (⟨.collection [ga.g, gb.g], ⟨A.f.pts ++ B.f.pts, A.f.lines ++ B.f.lines, A.f.polys ++ B.f.polys⟩⟩, ⟨.collection [], Flat.empty⟩)
               else (A, ⟨.collection [], Flat.empty⟩)
-            let needNew := needsNewVertex X.f Y.f
-            let bad (m : String) : Outcome := ⟨some s!"bad {r.opv} {m} {feats needNew}", none, false⟩
+            -- exactness is demanded only for grid-exact inputs whose overlay needs no new vertex
+            let needNew := !grid || needsNewVertex X.f Y.f
+            let bad (m : String) : Outcome := ⟨some s!"bad {r.opv} {m} {feats needNew} dims={dimG X.g},{dimG Y.g}", none, false, needNew⟩
             match opOf base with
             | none => bad "unknown-op"
             | some op =>
@@ -207,12 +215,14 @@ def check (line : String) : String :=
                 if binary && !rEmpty && dimG rg > rd then bad s!"dim result={dimG rg} rule={rd}" else
                 if binary && !rEmpty && !isCanonicalResult rg then bad s!"type not-most-specific type={rg.typeId}" else
                 let T : Tol := ⟨mag, !needNew⟩
-                let exactPass := acceptsExact op X.f Y.f R
-                let pass := if base == "clip" then clipAccepts T X.f Y.f R else (exactPass || (needNew && acceptsTol T op X.f Y.f R))
+                -- the verdict is `Overlay.accepts` (Props/C03.lean: overlay_check_sound)
+                let pass := if base == "clip" then clipAccepts T X.f Y.f R else accepts T op X.f Y.f R
                 if !pass then
                   (if base == "clip" then bad "clip" else bad (firstBad T op X.f Y.f R e0))
-                else ⟨none, some (flatArea2 R), exactPass⟩
-          | _ => ⟨some s!"bad {r.opv} format", none, false⟩
+                else
+                  let exactPass := if needNew then acceptsExact op X.f Y.f R else true
+                  ⟨none, some (flatArea2 R), exactPass, needNew⟩
+          | _ => ⟨some s!"bad {r.opv} format", none, false, false⟩
         let outs := recs.map fun r => (r.opv, evalRec r)
         let recMsgs := outs.filterMap (fun (_, o) => o.msg)
         -- inclusion–exclusion and its relatives on exact areas (inputs that are not GeometryCollections)
@@ -222,7 +232,7 @@ def check (line : String) : String :=
           let aA := flatArea2 A.f; let aB := flatArea2 B.f
           let slack : Int := 8 * mag * (ringLenL1 A.f + ringLenL1 B.f)      -- ×1e-9, doubled-area units
           let close (x y : Int) (exact : Bool) : Bool := if exact then x == y else decide ((x - y).natAbs * 1000000000 ≤ slack)
-          let needNew := needsNewVertex A.f B.f
+          let needNew := !grid || needsNewVertex A.f B.f
           let chk (name : String) (l r : Option (Int × Bool)) : Option String :=
             match l, r with
             | some (x, e1), some (y, e2) => if close x y (e1 && e2 && !needNew) then none else some s!"bad {name} area lhs2={fl x (2 * e0)} rhs2={fl y (2 * e0)} {feats needNew}"
@@ -235,9 +245,45 @@ def check (line : String) : String :=
            chk "sym:ab" (get "sym:ab") (sub (get "uni:ab") (get "int:ab")),
            chk "dif:ba" (get "dif:ba") (sub cB (get "int:ba")),
            chk "incl-excl:ba" (add cA cB) (add (get "uni:ba") (get "int:ba"))].filterMap id
+        if stats then
+          let n := outs.length
+          let ok := (outs.filter fun (_, o) => o.msg.isNone).length
+          let ex := (outs.filter fun (_, o) => o.msg.isNone && o.exactPass).length
+          let nn := (outs.filter fun (_, o) => o.needNew).length
+          s!"records={n} ok={ok} exact_match={ex} within_tolerance_only={ok - ex} needs_new_vertex={nn}"
+        else
         match recMsgs ++ areaMsgs with
         | [] => "ok"
         | l => Driver.joinWith " ;; " l
+    | _, _, _ => "parse-error"
+  | _ => "bad-line"
+
+/-! #### stream overlay-core: the modelled decision functions against the real ones -/
+
+def parseBox : List String → Option Env
+  | ["n"] => some none
+  | [a, b, c, d] => do some (some ⟨← a.toInt?, ← b.toInt?, ← c.toInt?, ← d.toInt?⟩)
+  | _ => none
+
+def loc3 (s : String) : Option Loc3 := if s == "0" then some .I else if s == "1" then some .B else if s == "2" then some .E else none
+
+def core (line : String) : String :=
+  match splitBar (Driver.tokens line) with
+  | [["R", op, a, b]] =>
+    match op.toInt?, loc3 a, loc3 b with
+    | some op, some a, some b => b01 (isResultOfOpCode op a b)
+    | _, _, _ => "parse-error"
+  | [["D", op, a, b]] =>
+    match op.toInt?.bind Op.ofCode, a.toInt?, b.toInt? with
+    | some op, some a, some b => toString (resultDimension op a b)
+    | _, _, _ => "parse-error"
+  | [["T", d]] =>
+    match d.toInt? with
+    | some d => match emptyResultType d with | some t => toString t | none => "assert"
+    | none => "parse-error"
+  | [["E", op], ta, tb] =>
+    match op.toInt?.bind Op.ofCode, parseBox ta, parseBox tb with
+    | some op, some ea, some eb => b01 (isEmptyResult op ea.isNone eb.isNone (envDisjoint ea eb))
     | _, _, _ => "parse-error"
   | _ => "bad-line"
 
@@ -245,5 +291,7 @@ end Driver.C03
 
 def main (args : List String) : IO UInt32 := do
   match args with
-  | ["overlay-grid"] | ["overlay-dbl"] | ["overlay"] => Driver.loop (← IO.getStdin) (← IO.getStdout) Driver.C03.check; return 0
+  | ["overlay-grid"] | ["overlay-dbl"] | ["overlay"] => Driver.loop (← IO.getStdin) (← IO.getStdout) (Driver.C03.check false); return 0
+  | ["overlay-core"] => Driver.loop (← IO.getStdin) (← IO.getStdout) Driver.C03.core; return 0
+  | ["overlay-stats"] => Driver.loop (← IO.getStdin) (← IO.getStdout) (Driver.C03.check true); return 0
   | _ => IO.eprintln "usage: drv_c03 overlay-grid|overlay-dbl"; return 2
